@@ -8,6 +8,23 @@ from harness.c08 import pack, pub_body, OID_ED, OID_P256, OID_CV
 from pgpy.packet import Packet
 from pgpy.types import Fingerprint
 import pgpy.packet.packets as P
+import pgpy.packet.fields as F
+import pgpy.constants as K
+from pgpy import PGPKey, PGPUID, PGPMessage
+from specs import rfc4880_sig as R
+from harness import sigfix
+import copy as _copy
+
+
+
+def _mk_keys():
+    """keys for O18.4, made per path under the forced digest (self-signatures name the forced ids)"""
+    signer = sigfix.new_key('signer', sub=False)
+    enc = PGPKey.new(K.PubKeyAlgorithm.EdDSA, K.EllipticCurveOID.Ed25519, created=sigfix.T0)
+    enc.add_uid(PGPUID.new('enc'), usage={K.KeyFlags.Sign, K.KeyFlags.Certify}, hashes=[K.HashAlgorithm.SHA256], ciphers=[K.SymmetricKeyAlgorithm.AES128],
+                compression=[K.CompressionAlgorithm.Uncompressed], created=sigfix.T0)
+    enc.add_subkey(PGPKey.new(K.PubKeyAlgorithm.ECDH, K.EllipticCurveOID.Curve25519, created=sigfix.T0), usage={K.KeyFlags.EncryptCommunications}, created=sigfix.T0)
+    return signer, enc
 
 warnings.simplefilter('ignore')
 
@@ -17,7 +34,7 @@ FUNCTIONS_ENCODED = ['pgpy.packet.packets.PubKeyV4.fingerprint', 'pgpy.packet.fi
 STUBS = ['SHA-1 (hashlib in pgpy.packet.packets) -> recorder: the harness compares the octets FED to the hash with 99 || len2 || exported public body']
 OUTSIDE = ['creation times as symbolic values: the time codec is two C calls (calendar.timegm(datetime.timetuple())); O18.1-tz covers 4 zones x 6 boundary instants only',
            'SHA-1 itself', 'key material beyond the stated bounds (integers below 2^32, EC point boundary octets)',
-           'ids written by sign / encrypt (issuer, issuer fingerprint, recipient): covered for signatures in C02 (sp_issuer_fpr) and C20 (one-pass issuer); PKESK recipient id not covered here']
+           'ids written by sign / encrypt for keys other than Ed25519 signer / Curve25519 recipient (O18.4 forces the digest value, the id fields do not depend on the algorithm)']
 ASSUMPTIONS = ['RFC 4880 12.2: fingerprint = SHA-1(0x99 || two-octet length || public-key packet body starting at the version octet); key id = low 64 bits']
 
 
@@ -28,7 +45,11 @@ class Rec(_Sha):
         super().__init__(data)
         Rec.log.append(self)
 
+    forced = None          # O18.4: {public-key algorithm octet: 40 hex digits} - the digest value becomes a per-path choice
+
     def hexdigest(self):
+        if Rec.forced is not None:
+            return Rec.forced[self.data[8]]
         return '0123456789ABCDEF0123456789ABCDEF01234567'       # (rendering 20 symbolic octets as hex is C code: the value is not what is studied)
 
 
@@ -216,6 +237,104 @@ def fingerprint_forms(p0: int, p1: int, p2: int, lower: bool) -> bool:
             (g == base[-16:]) and (g == base[-8:]) and not (g == base[-15:] + '0'))
 
 
-SANITY = ['fpr_timezone(%d, %d, 0x81, 3)' % (z, t) for z in range(4) for t in range(6)] + ['fpr_rsa(False, False, 32, 0x80, 1, 17, 1, 1)', 'fpr_rsa(False, True, 25, 0, 1, 1, 1, 0)', 'fpr_rsa(True, False, 32, 0x80, 1, 17, 1, 1)', 'fpr_rsa(True, True, 31, 1, 1, 16, 0, 9)',
+FPS = ('0123456789ABCDEF0123456789ABCDEF01234567', 'AAAAAAAAAAAAAAAAAAAAAAAA0011223344556677', 'BBBBBBBBBBBBBBBBBBBBBBBB0F00000000000001',
+       '00000000000000000000000000000000000000FF', 'FFFFFFFFFFFFFFFFFFFFFFFFFFFFFFFFFFFFFF00', '00FFEEDDCCBBAA99887766554433221100000000', '0000000000000000000000000000000000000000')
+
+
+@ob('O18.3', 'the fingerprint is the same for a passphrase-protected secret key packet, the public packet derived from it, a copy of either and the re-imported export '
+             '(none of them hashes anything but the public fields)',
+    'RSA / DSA / EdDSA secret key packets protected with S2K usage 254/255, specifier {0,1,3, GNU dummy}; 4 symbolic octets in salt / count / IV / encrypted octets', cond_timeout={'q': 280, 't': 600}, flags=('symmpi',),
+    partitions=[['ai == %d' % a] for a in range(3)])
+def fpr_protected(usage: int, spec: int, aes: bool, ai: int, x0: int, x1: int, x2: int, x3: int) -> bool:
+    """
+    pre: usage in (254, 255)
+    pre: spec in (0, 1, 3, 101)
+    pre: 0 <= ai < 3
+    pre: 0 <= x0 < 256 and 0 <= x1 < 256 and 0 <= x2 < 256 and 0 <= x3 < 256
+    post: _
+    """
+    if ai == 0:
+        alg, pubmat = 1, bytes([0, 32, 0xC1, 2, 3, 5]) + bytes([0, 17, 1, 0, 1])
+    elif ai == 1:
+        alg, pubmat = 17, bytes([0, 16, 0x81, 2]) + bytes([0, 8, 0x83]) + bytes([0, 8, 0x85]) + bytes([0, 16, 0x87, 9])
+    else:
+        alg, pubmat = 22, OID_ED + bytes([1, 7]) + b'\x40' + bytes(range(32))
+    body = pub_body(alg, pubmat) + bytes([usage])
+    if spec == 101:
+        body += bytes([0, 101]) + b'\x00GNU' + bytes([1])
+    else:
+        body += bytes([7 if aes else 3, spec, 2])
+        if spec >= 1:
+            body += bytes([x0, 1, 2, 3, 4, 5, 6, 7])
+        if spec == 3:
+            body += bytes([x1])
+        body += bytes([x2]) + bytes(15 if aes else 7)
+        body += bytes([x3, 9, 8, 7, 6, 5, 4, 3, 2, 1] * 3)
+    try:
+        pkt = Packet(bytearray(pack(5, body, 0)))
+    except Exception:
+        return True
+    pub = pkt.pubkey()
+    want = expect(body_of(pub))
+    if want != expect(pub_body(alg, pubmat)):
+        return False
+    for obj in (pkt, pub, _copy.copy(pkt), _copy.copy(pub), Packet(bytearray(bytes(pkt.__bytearray__()))), Packet(bytearray(bytes(pub.__bytearray__())))):
+        fed, _ = fed_for(obj)
+        if fed != want:
+            return False
+    return True
+
+
+def _stub_ecdh_encrypt(cls, pk, *args):
+    ct = cls()
+    ct.p = F.ECPoint.from_values(255, F.ECPointFormat.Native, bytes(range(32)))
+    ct.c = bytearray(b'\x07' * 8)
+    return ct
+
+
+@ob('O18.4', 'the ids PGPy writes are the fingerprint / its low 64 bits, octet for octet: issuer and issuer-fingerprint subpackets of a signature, the key id of the one-pass packet, '
+             'and the recipient key id of a public-key session-key packet (of the encryption subkey, not the primary)',
+    'SHA-1 replaced by a stand-in whose value is chosen by symbolic index from 7 adversarial 160-bit values (leading / trailing zero octets and nibbles in fingerprint and key id), '
+    'independently for the signer / primary and for the encryption subkey', cond_timeout={'q': 280, 't': 600})
+def ids_written(fa: int, fb: int) -> bool:
+    """
+    pre: 0 <= fa < 7 and 0 <= fb < 7
+    post: _
+    """
+    a = b = FPS[0]
+    for k in range(7):
+        if fa == k:
+            a = FPS[k]
+        if fb == k:
+            b = FPS[k]
+    saved = F.ECDHCipherText.__dict__['encrypt']
+    sigfix.install_oracle()
+    F.ECDHCipherText.encrypt = classmethod(_stub_ecdh_encrypt)
+    Rec.forced = {22: a, 18: b}
+    try:
+        SIGNER, ENC = _mk_keys()
+        ENCPUB = ENC.pubkey
+        if str(SIGNER.fingerprint) != a or SIGNER.fingerprint.keyid != a[24:] or list(ENC.subkeys) != [b[24:]]:
+            return False
+        msg = PGPMessage.new(b'x', compression=K.CompressionAlgorithm.Uncompressed, file=False, format='b')
+        sig = SIGNER.sign(msg, created=sigfix.T0)
+        raw = bytes(sig.__bytearray__())
+        if R.sp_issuer_fpr(bytes.fromhex(a)) not in raw or (bytes([9, 16]) + bytes.fromhex(a[24:])) not in raw:
+            return False
+        msg |= sig
+        out = msg.__bytes__()
+        if out[0] != 0xC4 or out[2:6] != bytes([3, 0, 8, 22]) or out[6:14] != bytes.fromhex(a[24:]):
+            return False
+        enc = ENCPUB.encrypt(PGPMessage.new(b'y', compression=K.CompressionAlgorithm.Uncompressed, file=False, format='b'), cipher=K.SymmetricKeyAlgorithm.AES128)
+        eb = enc.__bytes__()
+        # first packet: tag 1 (new format C1), version 3, 8-octet key id of the ENCRYPTION SUBKEY, algorithm 18
+        return eb[0] == 0xC1 and eb[2] == 3 and eb[3:11] == bytes.fromhex(b[24:]) and eb[11] == 18
+    finally:
+        Rec.forced = None
+        F.ECDHCipherText.encrypt = saved
+        sigfix.remove_oracle()
+
+
+SANITY = ['ids_written(%d, %d)' % (i, (i * 3 + 1) % 7) for i in range(7)] + ['fpr_protected(254, 3, True, 0, 1, 2, 3, 4)', 'fpr_protected(255, 0, False, 1, 1, 2, 3, 4)', 'fpr_protected(254, 101, False, 2, 1, 2, 3, 4)', 'fpr_protected(254, 1, True, 2, 0, 0, 0, 0)'] + ['fpr_timezone(%d, %d, 0x81, 3)' % (z, t) for z in range(4) for t in range(6)] + ['fpr_rsa(False, False, 32, 0x80, 1, 17, 1, 1)', 'fpr_rsa(False, True, 25, 0, 1, 1, 1, 0)', 'fpr_rsa(True, False, 32, 0x80, 1, 17, 1, 1)', 'fpr_rsa(True, True, 31, 1, 1, 16, 0, 9)',
           'fpr_ec(0, False, 1, 2, 0, 0)', 'fpr_ec(1, False, 0, 3, 0, 0)', 'fpr_ec(2, False, 2, 2, 1, 2)', 'fpr_ec(0, True, 1, 1, 0, 0)', 'fpr_ec(2, True, 3, 0, 2, 1)', 'fpr_ec(1, True, 1, 1, 0, 0)',
           'fpr_dsa_elg(True, 8, 16, 0x80, 0x80, 1, 0x81)', 'fpr_dsa_elg(False, 1, 9, 0, 0, 0, 0)', 'fingerprint_forms(0, 3, 5, True)', 'fingerprint_forms(1, 2, 4, False)']
